@@ -20,10 +20,10 @@
 //! dict_case_insensitive (every Word token: the dictionary's answers for its text in the output are those
 //! for its text in the input), lower_ascii_law, upper_ascii_law, lowercase_fixed, apostrophes_caseless,
 //! apostrophes_lower_fixed and ascii_variant_closed (over all code points).
-use harper_core::parsers::{Markdown, PlainEnglish};
+use harper_core::parsers::{Markdown, Parser, PlainEnglish};
 use harper_core::{
     make_title_case, make_title_case_str, CharStringExt, Dictionary, Document, FstDictionary, Lrc, MutableDictionary,
-    NounData, Span, Token, TokenKind, TokenStringExt, WordMetadata,
+    NounData, Punctuation, Span, Token, TokenKind, TokenStringExt, WordMetadata,
 };
 use hv::common::*;
 use hv::gen;
@@ -178,6 +178,117 @@ fn shape(toks: &[Token]) -> Vec<(usize, usize, u32, u32)> {
 }
 
 // ------------------------------------------------------------------------------------------------
+// end-to-end correspondence (Model/C18Str.v): the model lexes and condenses the text itself (C02's models),
+// attaches the dictionary metadata and title-cases; it needs the Unicode tables of the lexer (dumped once,
+// as the c02 harness does) and, per case, the facts about the words of the text
+// ------------------------------------------------------------------------------------------------
+fn ranges(pred: impl Fn(char) -> bool) -> Vec<(u32, u32)> {
+    let mut out: Vec<(u32, u32)> = vec![];
+    let mut cur: Option<(u32, u32)> = None;
+    for cp in 0..=0x10FFFFu32 {
+        let v = char::from_u32(cp).map(|c| pred(c)).unwrap_or(false);
+        match (v, cur) {
+            (true, Some((a, _))) => cur = Some((a, cp)),
+            (true, None) => cur = Some((cp, cp)),
+            (false, Some(r)) => {
+                out.push(r);
+                cur = None
+            }
+            (false, None) => {}
+        }
+    }
+    if let Some(r) = cur {
+        out.push(r);
+    }
+    out
+}
+
+/// CharExt::is_english_lingual is private; on the one-character text [c] the lexer answers Word exactly when
+/// lex_word accepts c (C02's harness checks `lingual => alphabetic`, the shortcut taken here, over all code points)
+fn observed_lingual(c: char) -> bool {
+    if !c.is_alphabetic() && !c.is_alphanumeric() {
+        return false;
+    }
+    let t = PlainEnglish.parse(&[c]);
+    t.len() == 1 && matches!(t[0].kind, TokenKind::Word(_))
+}
+
+fn dump_unicode(rep: &mut Report) {
+    let tabs: Vec<(&str, Vec<(u32, u32)>)> = vec![
+        ("ws", ranges(|c| c.is_whitespace())),
+        ("num", ranges(|c| c.is_numeric())),
+        ("alpha", ranges(|c| c.is_alphabetic())),
+        ("ling", ranges(observed_lingual)),
+    ];
+    for (name, rs) in &tabs {
+        let line = format!("U {name} {}", rs.iter().map(|(a, b)| format!("{a}-{b}")).collect::<Vec<_>>().join(" "));
+        rep.case(line.trim(), &format!("U {name} {}", rs.len()));
+    }
+}
+
+// ---- the class of PLAIN texts of Proofs/C18LexStable.v, evaluated with the real predicates
+const BAD_CHARS: &[char] = &['.', '@', ':', '[', '\'', '’', '‘', '＇']; // = C18LexStable.bad_chars
+fn ws3(c: char) -> bool {
+    matches!(c, '\t' | '\n' | ' ')
+}
+fn nopunct(c: char) -> bool {
+    !matches!(c, '"' | '“' | '”') && Punctuation::from_char(c).is_none() // quote_chars, punct_from_char of Tables_lexer
+}
+fn wchar(c: char) -> bool {
+    observed_lingual(c) && c.is_alphabetic() && !c.is_numeric() && nopunct(c) && !ws3(c)
+}
+fn ichar(c: char) -> bool {
+    !observed_lingual(c) && !c.is_alphanumeric() && !c.is_ascii_alphanumeric() && (ws3(c) || !nopunct(c))
+}
+fn ochar(c: char) -> bool {
+    !observed_lingual(c) && !c.is_numeric() && !c.is_ascii_alphanumeric() && nopunct(c) && !ws3(c)
+}
+fn plain_char(c: char) -> bool {
+    !BAD_CHARS.contains(&c) && !c.is_ascii_digit() && (wchar(c) || ichar(c) || ochar(c))
+}
+fn plain_text(s: &[char]) -> bool {
+    s.iter().all(|c| plain_char(*c))
+}
+
+/// "STR | src | chars | canon | meta": like case_line, but the dictionary facts are keyed by the words of the
+/// REAL token list (raw text for the metadata the document attaches, lower-cased text for
+/// should_capitalize_token); the model asks for the facts of ITS tokens and answers "?" when one is missing
+fn str_case_line(toks: &[Token], src: &[char], dict: &impl Dictionary) -> String {
+    let full = case_line(toks, src, dict);
+    let parts: Vec<&str> = full.split(" | ").collect();
+    // parts: src | toks | chars | canon | meta   (toks dropped; the raw-word metadata the document attaches added)
+    let mut meta: BTreeMap<Vec<char>, String> = BTreeMap::new();
+    for t in toks {
+        if let TokenKind::Word(_) = &t.kind {
+            if let Some(w) = safe_content(t.span, src) {
+                meta.entry(w.to_vec()).or_insert_with(|| format!("{} > {}", cps(w), meta_code(dict.get_word_metadata(w))));
+            }
+        }
+    }
+    let mut all_meta: Vec<String> = meta.values().cloned().collect();
+    if parts.len() == 5 && !parts[4].trim().is_empty() {
+        all_meta.push(parts[4].trim().to_string());
+    }
+    format!("STR | {} | {} | {} | {}", parts[0], parts.get(2).unwrap_or(&""), parts.get(3).unwrap_or(&""), all_meta.join(" ; "))
+}
+
+fn tok_case_line(toks: &[Token], src: &[char], dict: &impl Dictionary) -> String {
+    let mut meta: BTreeMap<Vec<char>, String> = BTreeMap::new();
+    for t in toks {
+        if let TokenKind::Word(_) = &t.kind {
+            if let Some(w) = safe_content(t.span, src) {
+                meta.entry(w.to_vec()).or_insert_with(|| format!("{} > {}", cps(w), meta_code(dict.get_word_metadata(w))));
+            }
+        }
+    }
+    format!("TOK | {} | {}", cps(src), meta.values().cloned().collect::<Vec<_>>().join(" ; "))
+}
+
+fn tok_impl_line(toks: &[Token]) -> String {
+    format!("T {}", shape(toks).iter().map(|(s, e, k, m)| format!("{s} {e} {k} {m}")).collect::<Vec<_>>().join(" ")).trim().to_string()
+}
+
+// ------------------------------------------------------------------------------------------------
 // the property oracle on the real function
 // ------------------------------------------------------------------------------------------------
 /// b is a case form of a: its lower-case or its upper-case mapping (one character).  KELVIN SIGN -> 'K' is
@@ -201,6 +312,12 @@ fn is_curly_apostrophe(c: char) -> bool {
 
 struct World {
     dict: Arc<FstDictionary>,
+    /// end-to-end correspondence cases (STR / TOK) are emitted for every text, except in the exhaustive
+    /// dictionary sweep of the thorough tier where every `e2e_sample`-th text gets them
+    e2e_sample: u64,
+    e2e_counter: std::cell::Cell<u64>,
+    /// characters of the plain class that are not case-stable (computed from all code points at start-up)
+    unstable: std::collections::HashSet<char>,
 }
 
 /// in bounds, ordered, disjoint, word-like tokens non-empty, and the tokens tile the text
@@ -297,6 +414,14 @@ fn check_text(rep: &mut Report, world: &World, text: &str, origin: &str, r: Opti
     let toks: Vec<Token> = doc.get_tokens().to_vec();
     // ---- correspondence on the real token list (+ sub-slices, as IsNotTitleCase passes them)
     let il = corr(rep, &toks, &src, dict);
+    let n_e2e = world.e2e_counter.get();
+    world.e2e_counter.set(n_e2e + 1);
+    let e2e = !origin.starts_with("dictionary word") || n_e2e % world.e2e_sample == 0;
+    if e2e {
+        // the model's own tokenisation + metadata vs Document::new_from_vec(.., PlainEnglish, dict)
+        rep.case(&tok_case_line(&toks, &src, dict), &tok_impl_line(&toks));
+        rep.count("corr:document_tokens");
+    }
     if let Some(r) = r {
         if toks.len() >= 2 {
             for _ in 0..2 {
@@ -314,6 +439,18 @@ fn check_text(rep: &mut Report, world: &World, text: &str, origin: &str, r: Opti
     }
     // ---- oracle
     let out = guarded(|| make_title_case_str(text, &PlainEnglish, dict));
+    if e2e {
+        // make_title_case_str vs C18Str.title_case_str (extracted), end to end
+        let sl = match &out {
+            Ok(o) => format!("O {}", cps(&o.chars().collect::<Vec<char>>())).trim().to_string(),
+            Err(_) => "P".to_string(),
+        };
+        rep.case(&str_case_line(&toks, &src, dict), &sl);
+        rep.count("corr:title_case_str");
+    }
+    // the class of C18_str_relex_plain / C18_str_idempotent_plain: plain_stable_text
+    let is_plain = plain_text(&src) && !src.iter().any(|c| world.unstable.contains(c));
+    rep.count(if is_plain { "plain_stable_text(C18_str_idempotent_plain applies):yes" } else { "plain_stable_text(C18_str_idempotent_plain applies):no" });
     let out = match out {
         Ok(o) => o,
         Err(m) => {
@@ -385,6 +522,12 @@ fn check_text(rep: &mut Report, world: &World, text: &str, origin: &str, r: Opti
                 if u != v {
                     rep.monitor("dict_case_insensitive:checked_on_changed_word", 1);
                 }
+                // dict_meta_case_insensitive (premise of C18_str_relex_plain): get_word_metadata of the RAW text
+                rep.monitor("dict_meta_case_insensitive:checked", 1);
+                if meta_code(dict.get_word_metadata(u)) != meta_code(dict.get_word_metadata(v)) {
+                    rep.monitor("dict_meta_case_insensitive:violated", 1);
+                    rep.fail("dict_meta_case_insensitive", format!("get_word_metadata answers differently for {:?} and {:?}", u.to_string(), v.to_string()), inp.clone());
+                }
                 let (f1, f2) = (word_facts(u, dict), word_facts(v, dict));
                 if (&f1.0, f1.1) != (&f2.0, f2.1) {
                     rep.monitor("dict_case_insensitive:violated", 1);
@@ -400,9 +543,22 @@ fn check_text(rep: &mut Report, world: &World, text: &str, origin: &str, r: Opti
     if let Ok(doc2) = doc2 {
         let toks2 = doc2.get_tokens();
         rep.monitor("H_case_stable:checked", 1);
+        if is_plain {
+            rep.monitor("H_relex_plain:checked", 1);
+            if !plain_text(&outc) {
+                rep.monitor("H_relex_plain:violated", 1);
+                rep.fail("plain_relex", "the title case of a plain text is not a plain text (C18_str_relex_plain says it is)".into(), inp.clone());
+            }
+        }
         if shape(toks2) != shape(&toks) {
             stable = false;
             rep.monitor("H_case_stable:violated", 1);
+            if is_plain {
+                // C18_str_relex_plain PROVES this cannot happen for a plain text: the model, a law or the
+                // class as evaluated here does not match the code
+                rep.monitor("H_relex_plain:violated", 1);
+                rep.fail("plain_relex", format!("a PLAIN text re-lexes differently after title-casing: {:?} -> {:?}", text, out), inp.clone());
+            }
             // the second pass on its own token list is a correspondence case of its own
             corr(rep, toks2, &outc, dict);
             // diagnosis: a hostname that only exists because a non-ASCII letter was replaced by an ASCII one,
@@ -411,7 +567,25 @@ fn check_text(rep: &mut Report, world: &World, text: &str, origin: &str, r: Opti
             let is_new = |t: &&Token| !s1.contains(&(t.span.start, t.span.end, kind_code(&t.kind), tok_meta_code(&t.kind)));
             let replaced_in = |t: &Token| (t.span.start..t.span.end.min(src.len()).min(outc.len())).find(|i| src[*i] != outc[*i] && !src[*i].is_ascii() && outc[*i].is_ascii());
             let host = toks2.iter().filter(is_new).find(|t| kind_code(&t.kind) == 8 && replaced_in(t).is_some());
-            unstable_why = if let Some(t2) = host {
+            // FC18c: a two-character Word the first pass owes to lex_plural_digit (ASCII letter or digit + LOWER-case s
+            // before a non-alphanumeric character) whose s the canonical spelling upper-cased: lex_plural_digit
+            // declines on the output and hostname / e-mail / URL material swallows the word
+            let plural = toks.iter().find(|t| {
+                matches!(t.kind, TokenKind::Word(_))
+                    && t.span.len() == 2
+                    && t.span.end <= src.len()
+                    && src[t.span.start].is_ascii_alphanumeric()
+                    && src[t.span.start + 1] == 's'
+                    && outc[t.span.start + 1] == 'S'
+                    && src.get(t.span.end).map(|c| !c.is_alphanumeric()).unwrap_or(true)
+            });
+            unstable_why = if let Some(t1) = plural {
+                let first_new = toks2.iter().find(is_new).map(|t2| format!("a token of kind {} at {}..{}", kind_code(&t2.kind), t2.span.start, t2.span.end)).unwrap_or_else(|| "fewer tokens".into());
+                format!(
+                    "FC18c plural-digit: the Word {:?} at {}..{} was cut by lex_plural_digit because of its lower-case s; title-cased to {:?} it is not, and the output re-lexes with {first_new}",
+                    t1.span.get_content(&src).to_string(), t1.span.start, t1.span.end, t1.span.get_content(&outc).to_string()
+                )
+            } else if let Some(t2) = host {
                 let i = replaced_in(t2).unwrap();
                 format!(
                     "the output re-lexes with the hostname {:?} because U+{:04X} was replaced by U+{:04X}",
@@ -849,11 +1023,95 @@ fn sweep_chars(rep: &mut Report) {
     }
 }
 
+/// case_stable of Proofs/C18StrProofs.v over all code points: group the scalar values by (to_lowercase,
+/// to_uppercase) — two characters are case variants exactly when they share a group — and for every ordered pair
+/// (a, c) of distinct members with a in the plain class ask: both word characters, or both characters no sub-lexer
+/// claims, and c in the plain class?  The characters a for which some pair fails are NOT case-stable: they are
+/// outside the class of C18_str_idempotent_plain (plain_stable_text); returned, and listed in the report.
+fn unstable_chars(rep: &mut Report) -> std::collections::HashSet<char> {
+    use std::collections::HashMap;
+    let mut groups: HashMap<(Vec<char>, Vec<char>), Vec<char>> = HashMap::new();
+    for cp in 0..0x110000u32 {
+        let Some(c) = char::from_u32(cp) else { continue };
+        groups.entry((c.to_lowercase().collect(), c.to_uppercase().collect())).or_default().push(c);
+    }
+    let mut bad = std::collections::BTreeSet::new();
+    for g in groups.values() {
+        if g.len() < 2 {
+            continue;
+        }
+        rep.monitor("case_stable:groups_with_variants", 1);
+        for &a in g {
+            if !plain_char(a) {
+                continue;
+            }
+            for &c in g {
+                if c == a {
+                    continue;
+                }
+                rep.monitor("case_stable:pairs_checked", 1);
+                let ok = plain_char(c) && ((wchar(a) && wchar(c)) || (ochar(a) && ochar(c)));
+                if !ok {
+                    bad.insert(a);
+                }
+            }
+        }
+    }
+    rep.monitor("case_stable:plain_characters_that_are_not_case_stable", bad.len() as u64);
+    rep.extra.insert("plain_characters_not_case_stable".into(), json!(bad.iter().map(|c| format!("U+{:04X}", *c as u32)).collect::<Vec<_>>()));
+    bad.into_iter().collect()
+}
+
+/// titles aimed at the case-sensitive corners of the lexer (lex_plural_digit's lower-case `s`, `0x`, the decade
+/// `s`, number suffixes, hostnames / e-mail / URL material glued to words that title-casing lower-cases or
+/// re-capitalises): the residue H_relex of C18_str_idempotent_partial is exercised where it can fail
+fn relex_title(r: &mut Rng, v: &Vocab) -> String {
+    const GLUE: &[&str] = &[".", ".", "'", "’", "'s", "'S", "s.", "S.", "@", ":", "://", "-", "0x", "0X", "1", "1990s", "1990S", "1st", "1ST", ".s", ".S", "s", "S", "[a-z]", ""];
+    let n = r.range(1, 4);
+    let mut out = String::new();
+    for i in 0..n {
+        if i > 0 {
+            out.push_str(r.s(&[" ", " ", " ", ".", "-", ", "]));
+        }
+        let pick = |r: &mut Rng| -> String {
+            let w = match r.below(6) {
+                0 | 1 => r.s(SPECIAL).to_string(),
+                2 => r.pick(&v.proper).clone(),
+                3 => r.pick(&v.proper_special).clone(),
+                4 => r.s(&["ss", "us", "as", "is", "it", "a", "i", "s", "x", "st", "nd", "rd", "th", "ms", "os", "cs"]).to_string(),
+                _ => r.pick(&v.prep_det).clone(),
+            };
+            match r.below(4) {
+                0 => w.to_uppercase(),
+                1 => w.to_lowercase(),
+                2 => gen::capitalize(&w.to_lowercase()),
+                _ => w,
+            }
+        };
+        let a = pick(r);
+        out.push_str(&a);
+        if r.chance(3, 4) {
+            out.push_str(r.s(GLUE));
+            let b = pick(r);
+            out.push_str(&b);
+            if r.chance(1, 3) {
+                out.push_str(r.s(GLUE));
+                let c = pick(r);
+                out.push_str(&c);
+            }
+        }
+    }
+    out
+}
+
 fn main() {
     let (a, corpus) = hv::cli();
     let mut rep = Report::new(&a.out);
     rep.rule = "titles: corpus; generated titles (common words, special lower-case words at first/middle/last position, proper nouns from the curated dictionary in every casing and with curly apostrophes, numbers, hyphenated, non-ASCII incl. Kelvin/Angstrom signs, long s, dotted capital I, punctuation, leading/trailing whitespace, empty); shared document generator; Markdown front-end (correspondence + hull length only); synthetic token lists over synthetic dictionaries (correspondence only); thorough adds every curated dictionary word in 5 casings alone and in mid-title position. non-trivial = distinct title with >= 2 word-like tokens and >= 1 changed character".into();
-    let world = World { dict: FstDictionary::curated() };
+    // the Unicode tables of the lexer model, before any end-to-end case (corpus and replays included)
+    dump_unicode(&mut rep);
+    let unstable = unstable_chars(&mut rep);
+    let world = World { dict: FstDictionary::curated(), e2e_sample: 16, e2e_counter: std::cell::Cell::new(0), unstable };
     for c in &corpus {
         replay_input(&mut rep, &world, c);
     }
@@ -880,6 +1138,10 @@ fn main() {
         let t = title(&mut r, &vocab);
         let mut r2 = r.fork();
         check_text(&mut rep, &world, &t, "title", Some(&mut r2));
+    }
+    for _ in 0..a.scale(1500, 30000) {
+        let t = relex_title(&mut r, &vocab);
+        check_text(&mut rep, &world, &t, "relex", None);
     }
     for _ in 0..a.scale(500, 6000) {
         let t = gen::any_text(&mut r);
